@@ -343,12 +343,36 @@ func (g *Gen) evalSpec(e *E, cx *Ctx) Val {
 		var guards []Term
 		var qterms []Term
 		var qtypes []types.Type
+		var qnames []string
+		sliceVars := map[string]Val{}
 		for _, q := range e.Vars {
 			t := g.specTypeByName(q.Type, cx.pkg)
 			if t == nil {
 				oos("unknown type %q of quantified variable", q.Type)
 			}
 			lay := g.layout(t)
+			if sl, isSlice := t.Underlying().(*types.Slice); isSlice || isString(t) {
+				// a quantified slice/string is an (array, offset, length) window
+				es := g.byteSort()
+				if isSlice {
+					el := g.layout(sl.Elem())
+					if len(el) != 1 {
+						oos("quantified slice of composite elements")
+					}
+					es = el[0].Sort
+				}
+				g.n++
+				base := fmt.Sprintf("%s!q%d", q.Name, g.n)
+				arr := Term{smtName(base + ".arr"), arrSort(g.intRep(), es)}
+				off := Term{smtName(base + ".off"), g.intRep()}
+				ln := Term{smtName(base + ".len"), g.intRep()}
+				decls = append(decls, fmt.Sprintf("(%s %s) (%s %s) (%s %s)", arr.S, arr.Sort, off.S, off.Sort, ln.S, ln.Sort))
+				if ln.Sort == SInt {
+					guards = append(guards, Term{app("<=", "0", ln.S), SBool}, Term{app("<=", "0", off.S), SBool})
+				}
+				sliceVars[q.Name] = Val{T: specArrType{t}, C: []Term{arr, off, ln}}
+				continue
+			}
 			if len(lay) != 1 {
 				oos("quantified variable must be scalar")
 			}
@@ -358,19 +382,24 @@ func (g *Gen) evalSpec(e *E, cx *Ctx) Val {
 			decls = append(decls, fmt.Sprintf("(%s %s)", tv.S, tv.Sort))
 			qterms = append(qterms, tv)
 			qtypes = append(qtypes, t)
+			qnames = append(qnames, q.Name)
 			if ii, ok := intInfo(t); ok && tv.Sort == SInt && q.Type != "int" {
 				guards = append(guards, rangeFact(tv, ii))
 			}
 		}
 		bind := func(shift map[string]Term) {
-			for i, q := range e.Vars {
+			for i, qn := range qnames {
 				tv := qterms[i]
 				if s, ok := shift[tv.S]; ok {
 					tv = linNorm(Term{app("-", tv.S, s.S), SInt})
 				}
 				v := Val{T: qtypes[i], C: []Term{tv}}
-				ncx.vars[q.Name] = v
-				ncx.oldV[q.Name] = v
+				ncx.vars[qn] = v
+				ncx.oldV[qn] = v
+			}
+			for qn, v := range sliceVars {
+				ncx.vars[qn] = v
+				ncx.oldV[qn] = v
 			}
 		}
 		// pass 1: discover which slice offsets the bound variables are used with
@@ -1041,8 +1070,17 @@ func (g *Gen) applyDeclaredSpec(sf *SpecFunc, args []Val, cx *Ctx, pkg *types.Pa
 		} else {
 			g.defineRecSpec(sf, name, rl[0].Sort, pkg)
 		}
+		g.emitAxiomsFor(sf.Name)
 	}
 	var as []string
+	if sf.Rec && !sf.Uninter {
+		// fuel-limited unfolding (Dafny style): two unfoldings at use sites, one less inside the definition
+		if g.recSpec == sf {
+			as = append(as, "|fuel!ly|")
+		} else {
+			as = append(as, "(fuelS (fuelS fuelZ))")
+		}
+	}
 	for _, t := range flat {
 		as = append(as, t.S)
 	}
@@ -1104,9 +1142,41 @@ func (g *Gen) defineRecSpec(sf *SpecFunc, name, rsort string, pkg *types.Package
 			sorts = append(sorts, t.Sort)
 		}
 	}
+	if sf.Rec {
+		if !g.fuelDecl {
+			g.fuelDecl = true
+			g.emit("(declare-sort Fuel 0)")
+			g.emit("(declare-fun fuelS (Fuel) Fuel)")
+			g.emit("(declare-const fuelZ Fuel)")
+		}
+		g.emit(fmt.Sprintf("(declare-fun %s (%s) %s)", name, strings.Join(append([]string{"Fuel"}, sorts...), " "), rsort))
+		hi := app(name, append([]string{"(fuelS |fuel!ly|)"}, names...)...)
+		lo := app(name, append([]string{"|fuel!ly|"}, names...)...)
+		qd := "(|fuel!ly| Fuel) " + strings.Join(decls, " ")
+		g.emit(fmt.Sprintf("(assert (forall (%s) (! (= %s %s) :pattern (%s))))", qd, hi, bt.S, hi))
+		g.emit(fmt.Sprintf("(assert (forall (%s) (! (= %s %s) :pattern (%s))))", qd, hi, lo, hi))
+		return
+	}
 	g.emit(fmt.Sprintf("(declare-fun %s (%s) %s)", name, strings.Join(sorts, " "), rsort))
 	appl := app(name, names...)
 	g.emit(fmt.Sprintf("(assert (forall (%s) (! (= %s %s) :pattern (%s))))", strings.Join(decls, " "), appl, bt.S, appl))
+}
+
+// emitAxiomsFor asserts every axiom that mentions the spec function just declared (each axiom once).
+func (g *Gen) emitAxiomsFor(name string) {
+	for _, ax := range g.p.cs.Axioms {
+		if ax.Lemma || g.axDone[ax.Name] || !strings.Contains(ax.Text, name+"(") {
+			continue
+		}
+		// all uninterpreted functions of the axiom get declared while evaluating it
+		g.axDone[ax.Name] = true
+		pkg := g.p.typesPkg(ax.Pkg)
+		st := &State{heap: map[string]Term{}, cells: map[*ssa.Alloc][]Term{}, alloc: tInt(0)}
+		cx := &Ctx{st: st, old: st, vars: map[string]Val{}, oldV: map[string]Val{}, pkg: pkg}
+		t := g.evalBool(ax.Expr, cx, &Clause{Line: "axiom " + ax.Name})
+		g.assume(t)
+		g.noteAssumption("axiom " + ax.Name + ": " + ax.Text)
+	}
 }
 
 func elemTypeOf(t types.Type) types.Type {
